@@ -85,6 +85,11 @@ class Unknown(Exception):
     pass
 
 
+class Changed(Exception):
+    """raised by a registry program that itself found an argument-derived table reading differently after an operation
+    that must not change it"""
+
+
 def _is_lazy(x):
     from bionumpy.bnpdataclass.lazybnpdataclass import LazyBNPDataClass
     return isinstance(x, LazyBNPDataClass)
@@ -717,6 +722,35 @@ def replace_then_reread(ch, j, bump):
     return (r1, r2, read(ch), r1 == r2)
 
 
+def field_write_fields(ch, sel, j):
+    """a selection of a lazily read chunk: read one field, WRITE the selection, read every field again — it must read exactly
+    like an identical selection that was never written"""
+    n = len(ch)
+    def take(x):
+        if sel == "mask":
+            return x[_mask(n)]
+        if sel == "ints":
+            return x[np.arange(n)[::-1]]
+        return x[min(1, n - 1):] if n else x
+    a, b = take(ch), take(ch)
+    fs = dataclasses.fields(a)
+    getattr(a, fs[j % len(fs)].name)
+    w = written_bytes(a)
+
+    def read(obj):
+        out = []
+        for f in fs:
+            try:
+                out.append((f.name, snap(getattr(obj, f.name))))
+            except Exception as e:
+                out.append((f.name, ("raises", type(e).__name__)))
+        return out
+    after, fresh = read(a), read(b)
+    if after != fresh:
+        raise Changed("arg0:selection-reads-differently-after-being-written")
+    return (w, after)
+
+
 def registry2(R):
     """second batch: every further public callable reachable from bionumpy.__all__ and the io / streams /
     genomic-data / variants / util entry points"""
@@ -873,6 +907,7 @@ def registry2(R):
     # --- util
     R["textfn(chunk column)"] = (lambda ch, j, sel, name: chunk_column_fn(ch, j, sel, name), ["chunk+col+fn"])
     R["replace(chunk, field) then reread"] = (lambda ch, j, bump: replace_then_reread(ch, j, bump), ["chunk+field"])
+    R["selection: field, write, fields"] = (lambda ch, sel, j: field_write_fields(ch, sel, j), ["chunk+sel+field"])
     R["chunk.program"] = (lambda ch, prog: run_chunk_program(ch, prog), ["chunk+program"])
     R["gi.clip(out of bounds)"] = (lambda gi: snap(gi.clip()), ["gintervals_oob"])
     R["gi.extended_to_size(oob)"] = (lambda gi, n: snap(gi.extended_to_size(n)), ["gintervals_oob+len"])
@@ -1461,6 +1496,8 @@ def gen_args(kind, rng):
         return [{"k": "str", "s": _dna(rng, rng.choice([4, 9, 12])), "enc": "DNA"}, py(rng.choice([1, 2, 3]))]
     if kind == "chunk+col+fn":
         return [file_spec(rng), py(rng.randrange(6)), py(rng.choice(["none", "none", "slice", "mask", "ints"])), py(rng.choice(TEXTFNS))]
+    if kind == "chunk+sel+field":
+        return [file_spec(rng, fmt=rng.choice(["bam", "bam"] + FORMATS)), py(rng.choice(["mask", "ints", "slice"])), py(rng.randrange(12))]
     if kind == "chunk+field":
         return [file_spec(rng), py(rng.randrange(12)), py(rng.random() < 0.5)]
     if kind == "chunk+program":
@@ -1528,7 +1565,7 @@ def cases(tier, rng):
     per = 250 if big else 20
     for name, (fn, kinds) in R.items():
         for kind in kinds:
-            reps = per * (4 if kind in ("chunk", "chunks") else 8 if kind in ("chunk+program", "chunk+col+fn", "chunk+field") else 1)
+            reps = per * (4 if kind in ("chunk", "chunks") else 8 if kind in ("chunk+program", "chunk+col+fn", "chunk+field", "chunk+sel+field") else 1)
             for _ in range(reps):
                 a1 = gen_args(kind, rng)
                 yield {"op": "call", "fn": name, "gen": kind, "args": a1,
@@ -1741,6 +1778,9 @@ def _observe_fresh(fn, specs, sel):
             res.append(("ok", digest(snap(r, result=True))))
         except Unknown:
             raise
+        except Changed as e:
+            mutated.add(str(e))
+            res.append(("changed",))
         except Exception as e:
             # npstructures' row access `int(view.starts)` raises under NumPy 2 for view-shaped ragged arrays, i.e. depending on
             # whether a column is cached: an incompatibility of the installed environment, not a result of the call
@@ -1794,6 +1834,9 @@ def _observe0(fn, specs, views, variant):
             res.append(("ok", digest(snap(r, result=True))))
         except Unknown:
             raise
+        except Changed as e:
+            mutated.add(str(e))
+            res.append(("changed",))
         except Exception as e:
             # npstructures' row access `int(view.starts)` raises under NumPy 2 for view-shaped ragged arrays, i.e. depending on
             # whether a column is cached: an incompatibility of the installed environment, not a result of the call
